@@ -191,6 +191,13 @@ class _Hoist(ast.NodeTransformer):
             return node.body
         if v is False:
             return node.orelse
+        # one orientation for `a if c else b` / `b if not c else a`: the test is positive (`x`, `==`, `in`) - except identity tests,
+        # which are spelled `is not` (the common `v if v is not None else d`)
+        t = node.test
+        flip = (isinstance(t, ast.UnaryOp) and isinstance(t.op, ast.Not)) or \
+            (isinstance(t, ast.Compare) and len(t.ops) == 1 and isinstance(t.ops[0], (ast.NotEq, ast.NotIn, ast.Is)))
+        if flip:
+            return ast.copy_location(ast.IfExp(test=neg_ast(t), body=node.orelse, orelse=node.body), node)
         return node
 
     """f(a if c else b) -> (f(a) if c else f(b)) for single-argument calls; not (not x) -> x; not (a == b) -> a != b"""
